@@ -78,6 +78,7 @@ func (v *VMap) validate(prefix string, tv reflect.Value) *VMap {
 		return v
 	}
 
+	v.validMissing(prefix, tv)
 	mapIter := tv.MapRange()
 	for mapIter.Next() {
 		key := mapIter.Key().String()
@@ -133,6 +134,22 @@ func (v *VMap) validate(prefix string, tv reflect.Value) *VMap {
 		}
 	}
 	return v
+}
+
+// validMissing 验证规则中有 required 但 map 中没有的 key(缺失等同于空)
+func (v *VMap) validMissing(prefix string, tv reflect.Value) {
+	for _, key := range sortedRuleKeys(v.ruleObj) {
+		if tv.MapIndex(reflect.ValueOf(key).Convert(tv.Type().Key())).IsValid() {
+			continue
+		}
+		for _, cusMsg := range requiredMsgs(v.ruleObj.Get(key)) {
+			if cusMsg != "" {
+				v.errBuf.WriteString(GetJoinValidErrStr("", v.getKey(prefix, key), "", cusMsg))
+				continue
+			}
+			v.errBuf.WriteString(GetJoinValidErrStr("", v.getKey(prefix, key), "", ExplainEn, "it is", Required))
+		}
+	}
 }
 
 // getKey 获取 key
